@@ -179,14 +179,15 @@ class Harness(cm.BaseB):
         elif ep == "dispense":
             wl.dispense(dst, ["A01", "B02"], 10.0, tip=tip)
         else:
-            wl.transfer(src, ["A01", "B01"], dst, ["A02", "B01"], [10.0, 20.0], tip=tip)
+            # (the first volume exceeds the default max_volume of 950: the large-volume path sees the tips too)
+            wl.transfer(src, ["A01", "B01"], dst, ["A02", "B01"], [1000.0, 20.0], tip=tip)
         return None
 
     def one_mutate(self, case):
         ep = case["ep"]
         tips = dec(case["tip"])  # one list object for both calls
-        src = rt.Labware("S", 2, 2, min_volume=0, max_volume=1000, initial_volumes=500)
-        dst = rt.Labware("D", 2, 2, min_volume=0, max_volume=1000)
+        src = rt.Labware("S", 2, 2, min_volume=0, max_volume=5000, initial_volumes=2500)
+        dst = rt.Labware("D", 2, 2, min_volume=0, max_volume=5000)
         wl = rt.FluentWorklist() if ep in ("transfer_f", "dispense") else rt.EvoWorklist()
         try:
             self.call(ep, wl, src, dst, tips)
@@ -262,8 +263,8 @@ class Harness(cm.BaseB):
         invalid = case.get("invalid", False)
         if not invalid:
             want = None if is_any else mask_of(raw if isinstance(raw, list) else [raw])
-        src = rt.Labware("S", 2, 2, min_volume=0, max_volume=1000, initial_volumes=500)
-        dst = rt.Labware("D", 2, 2, min_volume=0, max_volume=1000)
+        src = rt.Labware("S", 2, 2, min_volume=0, max_volume=5000, initial_volumes=2500)
+        dst = rt.Labware("D", 2, 2, min_volume=0, max_volume=5000)
         wl = rt.FluentWorklist() if ep in ("transfer_f", "dispense") else rt.EvoWorklist()
         exc = None
         try:
@@ -278,7 +279,8 @@ class Harness(cm.BaseB):
             elif ep == "dispense":
                 wl.dispense(dst, ["A01", "B02"], 10.0, tip=tip)
             else:
-                wl.transfer(src, ["A01", "B01"], dst, ["A02", "B01"], [10.0, 20.0], tip=tip)
+                # the first volume exceeds the default max_volume of 950 (two pairs), the second does not
+                wl.transfer(src, ["A01", "B01"], dst, ["A02", "B01"], [1000.0, 20.0], tip=tip)
         except Exception as e:
             exc = e
         V = []
@@ -301,7 +303,7 @@ class Harness(cm.BaseB):
         except gwl.ParseError as e:
             return f"{ep}:unparsable", None, [("C10/unparsable", str(e))]
         ad = [p for p in P if p["kind"] in "AD"]
-        nexp = {"aspirate_well": 1, "dispense_well": 1, "aspirate": 2, "dispense": 2}.get(ep, 4)
+        nexp = {"aspirate_well": 1, "dispense_well": 1, "aspirate": 2, "dispense": 2}.get(ep, 6)
         if len(ad) != nexp:
             V.append(("C10/mask", f"{ep}(tip={raw!r}): {len(ad)} records"))
         for p in ad:
